@@ -4,7 +4,7 @@ anchor-keyed edits, and assembles one Verus input file per unit and feature set.
 Every transformation is insertion/replacement at a text anchor that must match exactly the
 stated number of times; an anchor that does not match raises ExtractError (=> exit 2, undecided)."""
 import hashlib, os, re
-from rsx import Source, ExtractError, scan
+from rsx import Source, ExtractError, scan, find_matching
 
 REPO = os.environ.get("VX_REPO", "/repo")
 
@@ -619,6 +619,43 @@ class Fn:
         out_head = f"{self.attrs}{head}{vis}{sig.rstrip()}\n{contract}\n"
         return out_head + body + "\n", line, out_head.count("\n")
 
+class MacroImpl(Fn):
+    """a trait impl that /repo writes as an invocation of a local macro_rules! macro whose whole expansion is
+        impl <Trait> for $node { fn <method>(&self, $p1: FormatTriviaType, ...) -> Self { let $self = self; $body } }
+    (define_update_trivia! and its two siblings in trivia.rs). Verus does not look into a macro invocation at item level, so the
+    expansion is written out here, mechanically: parameters and body are the invocation's, the frame is the macro's. The macro's
+    own definition is pinned by SHA-256 — a changed macro is a lost anchor (undecided), not a silently different expansion."""
+    def __init__(self, file, macro, macro_sha, node, trait, method, nparams, contract="", edits=(), module=None, props=(), ret="r", rlimit=None, impl_attrs=""):
+        Fn.__init__(self, file, method, contract=contract, ret=ret, edits=edits, impl_of=node, trait_of=trait, module=module, props=props, rlimit=rlimit)
+        self.macro, self.macro_sha, self.node, self.nparams, self.impl_attrs = macro, macro_sha, node, nparams, impl_attrs
+    def render(self):
+        import hashlib
+        src = source(self.file)
+        text = src.text
+        ctx = f"{self.file}:{self.macro}!({self.node})"
+        a, b = src.find_item("macro_rules", self.macro)
+        sha = hashlib.sha256(re.sub(r"\s+", " ", text[a:b]).encode()).hexdigest()[:16]
+        if sha != self.macro_sha:
+            raise ExtractError(f"{ctx}: the definition of {self.macro}! changed (sha {sha}, pinned {self.macro_sha}): the written-out expansion may no longer be what the macro produces")
+        params = r"\s*,\s*".join([r"(\w+)"] * (self.nparams + 1))
+        ms = list(re.finditer(r"(?m)^((?:#\[cfg[^\n]*\]\n)?)" + re.escape(self.macro) + r"!\(\s*" + re.escape(self.node) + r"\s*,\s*\|" + params + r"\|", text))
+        if len(ms) != 1:
+            raise ExtractError(f"{ctx}: invocation matched {len(ms)}x (want 1)")
+        m = ms[0]
+        op = text.index("(", m.start() + len(m.group(1)))
+        cl = find_matching(text, op)
+        body = text[m.end():cl].strip()
+        names = m.groups()[1:]
+        for e in self.edits:
+            body = e.apply(body, ctx)
+        line = src.line_of(m.start())
+        sig = f"fn {self.name}(&self, " + ", ".join(f"{n}: FormatTriviaType" for n in names[1:]) + f") -> ({self.ret}: Self)"
+        contract = self.contract.strip("\n")
+        out_head = f"{sig}\n{contract}\n"
+        if m.group(1).strip() != self.impl_attrs.strip():
+            raise ExtractError(f"{ctx}: the cfg attribute of the invocation is {m.group(1).strip()!r}, the unit expects {self.impl_attrs.strip()!r}")
+        return out_head + "{\n    let " + names[0] + " = self;\n    " + body + "\n}\n", line, out_head.count("\n")
+
 def name_return(sig, ret):
     """`-> T` => `-> (ret: T)` at bracket depth 0 of the signature (after the parameter list)"""
     src = Source(sig)
@@ -734,7 +771,8 @@ def generate(unit, canaries=True):
                 grp.append(items[j]); j += 1
             if key != (None, None, None):
                 hdr = it.impl_header or (f"impl {it.trait_of} for {it.impl_of}" if it.trait_of and it.impl_of else f"impl {it.impl_of}")
-                emit(hdr + " {")
+                emit(getattr(it, "impl_attrs", "") + hdr + " {")
+                if getattr(it, "impl_items", ""): emit(it.impl_items)      # spec functions of the trait, defined for this impl (hand-written specification text)
             for f in grp:
                 t, line, head_lines = f.render()
                 idx = len(meta["fnranges"])
